@@ -17,6 +17,7 @@ ops (all JSON lists, c = client index):
   ["dupmsg", c, i] ["swapmsg", c, i, j] ["tamper", c, i, how, arg]   on queued `message` frames to client c
   ["inject", c, side, phase, bodyhex]   a fabricated `message` frame queued to client c
   ["fail_initial", c]          the initial connection attempt fails (no connection was ever made)
+  ["ws_fail", c]               a connection attempt reaches TCP but the WebSocket negotiation fails (onClose without onOpen)
   ["svc_stopped", c]           ClientService.stopService() completes
   ["server_welcome_error", m]  the server starts (m: str) / stops (m: None) sending `error` in its welcome
 """
@@ -156,6 +157,7 @@ class Client:
         self.api_errors = []    # exceptions raised to the application by API calls
         self.internal = []      # exceptions that escaped ws_open/ws_message/turns (internal failures)
         self.conn = None
+        self.ever_opened = False
         self.helper = None
         self.eq = EventualQueue(world.clock)
         n0 = len(FakeService.instances)
@@ -261,6 +263,7 @@ class World:
             return "noop"
         conn = Conn(self, c)
         c.conn = conn
+        c.ever_opened = True
         conn.sp.onOpen()
         for d in c.svc.when_connected:
             if not d.called:
@@ -309,7 +312,7 @@ class World:
 
     def fail_initial(self, ci):
         c = self.clients[ci]
-        if c.rc._have_made_a_successful_connection or c.conn is not None:
+        if c.ever_opened or c.conn is not None:
             return "noop"
         fired = False
         for d in c.svc.when_connected:
@@ -319,6 +322,14 @@ class World:
         if not fired:
             return "noop"
         return self._guard(c, lambda: self.clock.advance(0)) or "ok"
+
+    def ws_fail(self, ci):
+        """a connection attempt gets a TCP connection but the WebSocket negotiation fails: autobahn
+        reports onClose() without onOpen()"""
+        c = self.clients[ci]
+        if c.conn is not None or not c.svc.started:
+            return "noop"
+        return self._guard(c, lambda: c.rc.ws_close(False, 1006, "connection was closed uncleanly (handshake failed)")) or "ok"
 
     def turn(self, ci):
         c = self.clients[ci]
